@@ -46,6 +46,15 @@ def source_pub(ctx):
     vlib.proof_phase_extra(ctx, 'Properties_pub_source')
 
 
+# properties that rest on what the registration objects' constructors register (the `next` slot of a definition):
+# translators/registration.py -> Gen/GenReg.v -> Properties_reg_source
+SOURCE_REG = ('C03',)
+
+
+def source_reg(ctx):
+    vlib.proof_phase_extra(ctx, 'Properties_reg_source')
+
+
 def main(pid, assumptions, level='proof', explanation=None):
     ctx = vlib.Ctx(pid)
     if ctx.replay:
@@ -58,6 +67,8 @@ def main(pid, assumptions, level='proof', explanation=None):
         source_walk(ctx)
     if pid in SOURCE_PUB:
         source_pub(ctx)
+    if pid in SOURCE_REG:
+        source_reg(ctx)
     res = coresuite.dispatch_suite(ctx.tier, ctx.seed)
     cov = coresuite.summarize(ctx, res, pid)
     if ctx.broken and not ctx.violations:
